@@ -180,9 +180,22 @@ var verifUpgraded bool
 func verifWSNew(ws *websocket.Conn) *websocketconn.Conn        { return new(websocketconn.Conn) }
 func verifWSRead(c *websocketconn.Conn, p []byte) (int, error) { return verifGateConn.Read(p) }
 func verifWSClose(c *websocketconn.Conn) error                 { return verifGateConn.Close() }
-func verifParseIPGate(s string) net.IP                         { return net.IP{198, 51, 100, 9} }
-func verifQueryGet(v url.Values, key string) string            { return "198.51.100.9" }
-func verifTCPStringGate(a *net.TCPAddr) string                 { return "198.51.100.9:1" }
+
+// the query parameter as net/url hands it over (already percent-decoded once); it contains a
+// '%' so that any further decoding on the way to the sanitiser would change it
+const verifClientIPParam = "198.51.100.9%31"
+
+func verifParseIPGate(s string) net.IP {
+	verifapi.Assert(s == verifClientIPParam, "C18: the sanitiser is given exactly the client_ip query parameter")
+	return net.IP{198, 51, 100, 9}
+}
+func verifQueryGet(v url.Values, key string) string {
+	if key != "client_ip" {
+		return ""
+	}
+	return verifClientIPParam
+}
+func verifTCPStringGate(a *net.TCPAddr) string { return "198.51.100.9:1" }
 
 func VerifC05_TokenGate() {
 	tok := verifapi.Bytes("first8", 8)
